@@ -11,11 +11,16 @@ T_Reset == IsEvent("reset") /\ sent' = RFresh.sent /\ resolvedMax' = RFresh.reso
 T_TxP == IsEvent("txp") /\ TxSeen(Rec[l].sp, Rec[l].pn, Rec[l].cc)
 T_Sent == IsEvent("packet_sent") /\ LET r == Rec[l] IN IF r.sp \in Sp THEN PacketSent(r.sp, r.pn, r.len, r.t) ELSE UNCHANGED rvars
 T_Ack == IsEvent("ack_range") /\ LET r == Rec[l] IN AckRange(r.sp, r.lo, r.hi)
-T_Lost == IsEvent("packet_lost") /\ LET r == Rec[l] IN PacketLost(r.sp, r.pn, r.t)
-T_Metrics == IsEvent("metrics") /\ LET r == Rec[l] IN IF r.path = 0 THEN Metrics(r.srtt, r.latest, r.min_rtt, r.bif, r.pto_count) ELSE MetricsOtherPath
+T_Lost == IsEvent("packet_lost") /\ LET r == Rec[l] IN PacketLost(r.sp, r.pn, r.t, r.spath)
+T_Metrics == IsEvent("metrics") /\ LET r == Rec[l] IN Metrics(r.path, r.srtt, r.latest, r.min_rtt, r.bif, r.pto_count)
 T_Discard == IsEvent("space_discarded") /\ (IF Rec[l].sp \in Sp THEN SpaceDiscarded(Rec[l].sp) ELSE UNCHANGED rvars)
 T_TxF == IsEvent("txf") /\ (IF Rec[l].ty = "conn_close" THEN CloseSent ELSE UNCHANGED rvars)
+\* a Retry packet: accepted unless the very next event of this endpoint says it was discarded (second Retry, bad tag)
+T_Retry == IsEvent("packet_received") /\
+           (IF l + 1 <= NRec /\ Rec[l + 1].ev = "packet_dropped" THEN UNCHANGED rvars ELSE RetryAccepted)
+T_RetryDropped == IsEvent("packet_dropped") /\ UNCHANGED rvars
+T_End == IsEvent("sim_end") /\ EndOfRun
 T_Path == IsEvent("active_path") /\ MorePaths
-TNext == T_TxF \/ T_Reset \/ T_TxP \/ T_Sent \/ T_Ack \/ T_Lost \/ T_Metrics \/ T_Discard \/ T_Path
+TNext == T_TxF \/ T_Reset \/ T_TxP \/ T_Sent \/ T_Ack \/ T_Lost \/ T_Metrics \/ T_Discard \/ T_Path \/ T_Retry \/ T_RetryDropped \/ T_End
 TSpec == TInit /\ [][TNext]_<<rvars, l>>
 =============================================================================
